@@ -2,7 +2,7 @@
 #pragma once
 #include "mesh_common.h"
 enum Op { OP_NONE = 0, OP_DEL_V, OP_DEL_E, OP_DEL_F, OP_DEL_C, OP_ADD_V, OP_ADD_E, OP_ADD_E_DUP, OP_ADD_F, OP_ADD_C,
-          OP_SWAP_V, OP_SWAP_E, OP_SWAP_F, OP_SWAP_C, OP_GC, OP_CLEAR, OP_BU_TOGGLE, OP_SET_E, OP_SET_F, OP_SET_C, OP_ADD_NV, OP_SET_MODE, OP_BU_OFF, N_OPS };
+          OP_SWAP_V, OP_SWAP_E, OP_SWAP_F, OP_SWAP_C, OP_GC, OP_CLEAR, OP_BU_TOGGLE, OP_SET_E, OP_SET_F, OP_SET_C, OP_ADD_NV, OP_SET_MODE, OP_BU_OFF, OP_READD_C, N_OPS };
 
 // a: first entity index, b: second (pairs) -- both already decoded to be in range by the caller
 static void apply_op(TopologyKernel &m, unsigned op, unsigned a, unsigned b) {
@@ -42,6 +42,15 @@ static void apply_op(TopologyKernel &m, unsigned op, unsigned a, unsigned b) {
     if (b == 0) { for (size_t k = 1; k < hfs.size(); ++k) out.push_back(hfs[k]); out.push_back(hfs[0]); }
     else { for (size_t k = hfs.size(); k > 0; --k) out.push_back(hfs[k - 1]); }
     m.set_cell(CH((int)a), out); break; }
+  case OP_READD_C: {  // add a new cell on the halffaces of every deferred-deleted (not yet collected) cell whose faces are all live
+    unsigned nc = (unsigned)m.n_cells();
+    for (unsigned c = 0; c < nc; ++c) {
+      if (!m.is_deleted(CH((int)c))) continue;
+      std::vector<HFH> hfs = m.cell(CH((int)c)).halffaces(); bool ok = true;
+      for (size_t k = 0; k < hfs.size(); ++k) if (m.is_deleted(hfs[k])) ok = false;
+      if (ok) m.add_cell(hfs);
+    }
+    break; }
   case OP_ADD_F: {  // a, b: a = v0 * nv + v1, b = v2 (three distinct live vertices)
     unsigned nv = (unsigned)m.n_vertices(); m.add_face(vec3(VH((int)(a / nv)), VH((int)(a % nv)), VH((int)b))); break; }
   default: break;
@@ -57,7 +66,7 @@ static unsigned op_arity_count(const TopologyKernel &m, unsigned op) {
   case OP_ADD_E: case OP_ADD_E_DUP: case OP_SWAP_V: return nv * nv;
   case OP_SWAP_E: return ne * ne; case OP_SWAP_F: return nf * nf; case OP_SWAP_C: return nc * nc;
   case OP_BU_TOGGLE: return 14;   // subsets 1..7 x two re-enable orders
-  case OP_SET_MODE: return 4; case OP_BU_OFF: return 8;
+  case OP_SET_MODE: return 4; case OP_BU_OFF: return 8; case OP_READD_C: return 1;
   case OP_SET_E: return ne * nv * nv; case OP_SET_F: return nf * 2; case OP_SET_C: return nc * 2; case OP_ADD_F: return nv * nv * nv;
   default: return 0;
   }
